@@ -29,6 +29,7 @@ type UDP struct {
 	ServeDone bool
 	seen      int
 	NewConns  int
+	Tick      func(now time.Time) bool // the housekeeping function the server handed to its PeriodicRunner
 }
 
 type UDPOpts struct {
@@ -37,6 +38,7 @@ type UDPOpts struct {
 	MaxMsgSize uint32
 	OnNewConn  func(cc *client.Conn)
 	BlockWise  bool
+	Extra      []server.Option // real options (e.g. options.WithInactivityMonitor) applied after the harness defaults
 }
 
 // NewUDP builds the server and starts Serve in a library thread (call from a managed thread).
@@ -49,10 +51,10 @@ func NewUDP(o UDPOpts) *UDP {
 	u.Sock = sock
 	mid := int32(30000)
 	tok := byte(0)
-	u.S = server.New(udpOpt(func(cfg *server.Config) {
+	all := []server.Option{udpOpt(func(cfg *server.Config) {
 		cfg.Handler = o.Handler
 		cfg.Errors = func(err error) { u.Errors = append(u.Errors, err.Error()) }
-		cfg.PeriodicRunner = func(func(time.Time) bool) {}
+		cfg.PeriodicRunner = func(f func(time.Time) bool) { u.Tick = f }
 		cfg.MessagePool = pool.New(0, 0)
 		cfg.GetMID = func() int32 { mid++; return mid }
 		cfg.GetToken = func() (message.Token, error) { tok++; return message.Token{0xdd, tok}, nil }
@@ -70,7 +72,16 @@ func NewUDP(o UDPOpts) *UDP {
 				o.OnNewConn(cc)
 			}
 		}
-	}))
+	})}
+	for _, e := range o.Extra {
+		e := e
+		all = append(all, udpOpt(func(cfg *server.Config) {
+			onNew := cfg.OnNewConn
+			e.UDPServerApply(cfg)
+			cfg.OnNewConn = onNew
+		}))
+	}
+	u.S = server.New(all...)
 	u.L, u.PC = coapNet.NewUDPConnVerif(sock, func(err error) { u.Errors = append(u.Errors, err.Error()) })
 	vrt.Lib("udp-server-serve", func() {
 		u.ServeErr = u.S.Serve(u.L)
